@@ -167,6 +167,9 @@ def random_blocks(rnd, tier):
     return scs
 
 
+RACE_TEXT = {}      # report (first two hagall frames) -> text of the race detector's report
+
+
 def race_stage(work, tier, seed):
     """(D) wire-level stress with the race detector; returns list of distinct race reports (hagall frames)"""
     env = dict(os.environ, **GOENV)
@@ -236,6 +239,8 @@ def race_stage(work, tier, seed):
     env2 = dict(os.environ, GORACE="halt_on_error=0 exitcode=0")
     r = subprocess.run([out, "l2", "-in", pin, "-out", pout], capture_output=True, text=True, timeout=900, env=env2)
     reports = []
+    RACE_TEXT.clear()
+    open(work.path("race", "stderr.txt"), "w").write(r.stderr)
     for blk in r.stderr.split("WARNING: DATA RACE")[1:]:
         frames = [re.sub(r"\(0x.*|\(\)", "", ln.strip()) for ln in blk.splitlines() if "aukilabs/hagall/" in ln and "aukilabs/hagall-common" not in ln
                   and not ln.strip().startswith("/")]
@@ -247,6 +252,7 @@ def race_stage(work, tier, seed):
         frames = [f for f in frames if "verif" not in f.lower()]
         if frames:
             reports.append(tuple(frames[:2]))
+            RACE_TEXT.setdefault(tuple(frames[:2]), blk[:6000])
     if r.returncode != 0 and not reports:
         raise Inconclusive("race-detector run failed: " + r.stderr[-600:])
     return sorted(set(reports)), len(scs)
@@ -315,7 +321,7 @@ def run(work, tier, replay=None):
             if kf not in known:
                 known.append(kf)
             continue
-        violations.append((sig, "data race: %s  vs  %s" % (rp[0], rp[-1]), save_replay("C09", "race-" + re.sub(r"\W+", "_", rp[0])[-60:], [dict(race=list(rp))])))
+        violations.append((sig, "data race: %s  vs  %s" % (rp[0], rp[-1]), save_replay("C09", "race-" + re.sub(r"\W+", "_", rp[0])[-60:], [dict(race=list(rp), report=RACE_TEXT.get(tuple(rp), ""))])))
     # (E) lock-grain specification: RelayConc.tla explored exhaustively with TLC's deadlock check and the
     # NoLockLeft invariant (Go RWMutex semantics incl. writer preference); behaviours of the specification forced on the
     # real handlers and random schedules of the real handlers validated against it (a run that ends in a deadlock
